@@ -354,7 +354,28 @@ pybind11::array_t< double > c20npvnew ( pybind11::array_t< double > &a, double k
 }
 """
 
-STATE = types.SimpleNamespace(np=None, dc=None, FV={}, npv=None, npvnew=None)
+NPV3_CODE = r"""
+#include <cstddef>
+#include <dune/python/common/numpyvector.hh>
+// NumPyVector<double> over a buffer of another item type (int64): the vector wraps a *converted copy* of the buffer; it
+// shows the converted numbers, and writes do not reach the integer array.   op as in c20npv (0, 5, 6, 7, 8, 9)
+double c20npvint ( pybind11::array_t< long > &a, int op, double k, int i )
+{
+  Dune::Python::NumPyVector< double > x( a );
+  switch( op )
+  {
+  case 0: x *= k; return x.one_norm();
+  case 5: return x.one_norm();
+  case 6: return x.infinity_norm();
+  case 7: return x.two_norm2();
+  case 8: return x.size();
+  case 9: return x[ i ];
+  }
+  return -1;
+}
+"""
+
+STATE = types.SimpleNamespace(np=None, dc=None, FV={}, npv=None, npvnew=None, npvint=None)
 
 
 def prepare(need_sizes=FV_SIZES_ALL, need_shapes=TUP_SHAPES):
@@ -394,12 +415,18 @@ def prepare(need_sizes=FV_SIZES_ALL, need_shapes=TUP_SHAPES):
         algorithm.load("c20npvnew", StringIO(NPV2_CODE), dummy, 0.0)
     except Collected:
         pass
+    idummy = np.zeros(1, dtype=np.int64)
+    try:
+        algorithm.load("c20npvint", StringIO(NPV3_CODE), idummy, 0, 0.0, 0)
+    except Collected:
+        pass
     mods, BUILDER.collect = BUILDER.collect, None
     parallel(mods)
     for n in need_sizes:
         STATE.FV[n] = type(dc.FieldVector([0] * n))
     STATE.npv = algorithm.load("c20npv", StringIO(NPV_CODE), dummy, 0, 0.0, 0, dummy)
     STATE.npvnew = algorithm.load("c20npvnew", StringIO(NPV2_CODE), dummy, 0.0)
+    STATE.npvint = algorithm.load("c20npvint", StringIO(NPV3_CODE), idummy, 0, 0.0, 0)
     # stage C: tuple vectors
     BUILDER.collect = []
     for shape, ref in need_shapes:
@@ -547,6 +574,20 @@ def reg(tok, letter, count):
     if not (0 <= k < count):
         raise ValueError("register " + tok)
     return k
+
+
+def stat_index(i, n):
+    """distribution of the indices handed to __getitem__/__setitem__ of a vector with n entries"""
+    if 0 <= i < n:
+        stat("idx_nonneg_in_range")
+    elif -n <= i < 0:
+        stat("idx_negative_in_range")
+    elif i in (n, -n - 1):
+        stat("idx_first_out_of_range")
+    elif -(1 << 63) <= i < (1 << 63):
+        stat("idx_out_of_range")
+    else:
+        stat("idx_beyond_ssize_t")
 
 
 def line_variant(head):
@@ -857,6 +898,7 @@ class Exec:
         'ok' (converted through the constructor), 'type' (TypeError), 'na' (not an operation of the bindings)"""
         if kind not in self.OPERAND_KINDS:
             raise ValueError("operand kind " + kind)
+        stat("okind_" + kind + ("_reflected" if reflected else ""))
         if kind in ("list", "ilist"):
             return "ok"
         if kind == "tuple":
@@ -1241,6 +1283,7 @@ class Exec:
         if npidx and not (-(1 << 63) <= i < (1 << 63)):
             raise Skip("skip")
         ii = self.np.int64(i) if npidx else i
+        stat_index(i, len(self.sh.x[x]))
 
         def impl():
             self.x[x][ii] = float(k)
@@ -1271,6 +1314,7 @@ class Exec:
         if npidx and not (-(1 << 63) <= i < (1 << 63)):
             raise Skip("skip")
         ii = self.np.int64(i) if npidx else i
+        stat_index(i, len(self.sh.x[x]))
 
         def impl():
             r = self.x[x][ii]
@@ -1735,6 +1779,32 @@ class Exec:
         def exp():
             self.sh.a[a] = SView(R, range(len(R)))
             return fmt_list(R)
+        return self.both(impl, exp)
+
+    def op_nint(self, tk):
+        """NumPyVector<double> over an int64 copy of the array: shows the same numbers (size, norms, entries); `x *= k`
+        on it works on the converted copy, the integer array keeps its values"""
+        self.only("fv", "dyn")
+        a, k = reg(tk[1], "a", NA), int(tk[2])
+        if len(tk) != 3:
+            raise ValueError("nint")
+        self.need(self.sh.a[a])
+        A = self.sh.a[a].vals()
+        R = [e * k for e in A]
+        if abs(k) > BOUND or not ok_vals(R):
+            raise Skip("skip")
+
+        def impl():
+            ia = self.a[a].astype(self.np.int64)
+            f = STATE.npvint
+            res = [canon(f(ia, 8, 0.0, 0)), canon(f(ia, 5, 0.0, 0)), canon(f(ia, 6, 0.0, 0)), canon(f(ia, 7, 0.0, 0))]
+            res += [canon(f(ia, 9, 0.0, j)) for j in range(len(ia))]
+            res.append(canon(f(ia, 0, float(k), 0)))          # one norm of the scaled (copied) vector
+            return fmt_list(res + [str(int(e)) for e in ia.tolist()])
+
+        def exp():
+            return fmt_list([len(A), sum(abs(e) for e in A), max([abs(e) for e in A] + [0]), sum(e * e for e in A)] + A
+                            + [sum(abs(e) for e in R)] + A)
         return self.both(impl, exp)
 
     def op_nrun(self, tk):
@@ -2253,10 +2323,10 @@ def gen_program(r, idx, tier):
            ("slice", 4), ("eq", 2), ("ne", 2), ("eql", 2), ("nel", 2), ("eqo", 1), ("neo", 1), ("norms", 3), ("dot", 2),
            ("dotl", 2), ("rdotl", 2), ("doto", 1), ("float", 1),
            ("view", 5), ("npcopy", 3), ("sl", 6), ("aget", 3), ("aset", 6), ("alist", 1), ("nscale", 3), ("nset", 3),
-           ("nget", 2), ("nnorms", 2), ("naxpy", 3), ("nadd", 2), ("nnew", 2), ("nrun", 2)]
+           ("nget", 2), ("nnorms", 2), ("naxpy", 3), ("nadd", 2), ("nnew", 2), ("nint", 2), ("nrun", 2)]
     while len(segs) < nseg:
         op = r.weighted(ops)
-        if op in ("aget", "aset", "alist", "nscale", "nset", "nget", "nnorms", "naxpy", "nadd", "nnew", "nrun") and not ba:
+        if op in ("aget", "aset", "alist", "nscale", "nset", "nget", "nnorms", "naxpy", "nadd", "nnew", "nint", "nrun") and not ba:
             op = r.pick(["view", "sl", "npcopy"]) if kind == "fv" else "npcopy"
         stat("op_" + op)
         if op == "new":
@@ -2326,8 +2396,8 @@ def gen_program(r, idx, tier):
             segs.append("aset %s %d %d" % (ar(), gen_index_np(r, max(1, n - r.below(2))), gen_val(r)))
         elif op in ("alist", "nnorms", "nrun"):
             segs.append("%s %s" % (op, ar()))
-        elif op == "nscale":
-            segs.append("nscale %s %d" % (ar(), gen_scalar(r)))
+        elif op in ("nscale", "nint"):
+            segs.append("%s %s %d" % (op, ar(), gen_scalar(r)))
         elif op == "nset":
             segs.append("nset %s %d %d" % (ar(), r.range(0, max(0, n - 1)), gen_val(r)))
         elif op == "nget":
